@@ -109,7 +109,8 @@ MANIFEST = dict(
           "with the real code exhaustively / by sampling on the lattice {-1,0,1}^3 for k = 1..4 at exact rationals "
           "(set bits and ordered indices equal, values within 1e-12) and on random simplices over 12 decades of "
           "aspect ratio; an exact rational QP oracle checks optimality, membership and the barycentric weights on "
-          "the real code."),
+          "the real code. " 
+          "Link theorems (regenerated from today's source by py2lean on every run, D3/Gen/Link18.lean) tie get_barycentric_coordinates_line and closest_point_line to the model on its non-zero-denominator case. "),
     note=("trusted: Lean kernel + Mathlib, axioms propext/Classical.choice/Quot.sound; exact-real semantics of the "
           "model (float rounding not modelled; absolute thresholds EPSILON, EPSILON_SQR taken from the regenerated "
           "constants); the two absolute-threshold defects (tiny simplices) are recorded as known findings and "
@@ -117,7 +118,7 @@ MANIFEST = dict(
           "known-finding classes are: F-C18-jolt-abs-eps (segments, tetrahedron plane band), F-C18-jolt-sliver (edge "
           "fallback of near-degenerate triangles, bounded by the altitude), F-C18-jolt-illcond (numerically flat "
           "tetrahedra), F-C18-orig-abs-eps, F-C18-orig-illcond."),
-    technique="Lean 4 proof on hand-written model + correspondence (Rat-exact on the lattice) + exact rational QP oracle",
+    technique="Lean 4 proof on hand-written model + correspondence (Rat-exact on the lattice) + exact rational QP oracle + py2lean-regenerated kernels linked to the model by theorem",
     design="§7 C18")
 
 TOL2 = Fr(1, 10 ** 18)          # (1e-9)^2
